@@ -20,9 +20,10 @@ def run(ctx: lib.Ctx) -> None:
     ctx.rule = c01.RULE + '; C02 additionally requires inputs "of every type shape": input types are drawn to depth 3'
     cases, metas, coq_cases = c01.collect(ctx, PROP)
 
-    # (A)
-    bad_a = ctx.coq_mismatches('py', c01.IMPORTS, "py_run'", 'obs_eqb', c01.CASE_TY, 'obs',
-                               [(c, G.obs_coq(o)) for c, o in zip(coq_cases, metas)], prelude=c01.PRELUDE)
+    # (A) (+ the generator agrees with Typing.v, + the reference: a disagreement there alone is C01's business)
+    obs_l = [G.obs_coq(o) for o in metas]
+    bad_t, bad_a, _ = c01.triple_check(ctx, 'main', coq_cases, [f'(Full {o})' for o in obs_l], [f'(erase_obs {o})' for o in obs_l])
+    c01.tc_fail(cases, bad_t)
     # (B) static type vs run-time type expression of every slot
     idx, b_cases, outside = [], [], []
     for i, (c, o) in enumerate(zip(coq_cases, metas)):
@@ -64,10 +65,9 @@ def run(ctx: lib.Ctx) -> None:
 
     # contracts: the storage returned by run_code
     ccases, cmetas, ccoq = c01.collect_contracts(ctx)
-    cbad_b = ctx.coq_mismatches('cref', c01.IMPORTS, 'ref_run', 'outcome_eqb', c01.CASE_TY, 'outcome',
-                                [(c, G.contract_obs_coq(o)) for c, o in zip(ccoq, cmetas)], prelude=c01.PRELUDE)
-    cbad_a = ctx.coq_mismatches('cpy', c01.IMPORTS, "fun c => erase_obs (py_run' c)", 'outcome_eqb', c01.CASE_TY, 'outcome',
-                                [(c, G.contract_obs_coq(o)) for c, o in zip(ccoq, cmetas)], prelude=c01.PRELUDE)
+    cobs = [G.contract_obs_coq(o) for o in cmetas]
+    cbad_t, cbad_a, cbad_b = c01.triple_check(ctx, 'contract', ccoq, [f'(Erased {o})' for o in cobs], cobs)
+    c01.tc_fail(ccases, cbad_t)
     ctx.extra['contract_disagreements_reference'] = len(cbad_b)
     for i in cbad_b:
         o = cmetas[i]
